@@ -998,14 +998,16 @@ def pad(tensor, padding, value=0.0):
                 tn.eye(pad[1], device=cores[k].device, dtype=cores[k].dtype)
             value = 1
     else:
-        rprod = np.prod(tensor.R)
-        value = value/rprod
-
         cores = [c.clone() for c in tensor.cores]
+        inner = [tn.ones((1, n, 1), dtype=c.dtype, device=c.device)
+                 for n, c in zip(tensor.N, tensor.cores)]
         for pad, k in zip(reversed(padding), reversed(range(len(tensor.N)))):
-            cores[k] = tnf.pad(
-                cores[k], (0, 0, pad[0], pad[1], 0, 0), value=value)
-            value = 1 if value != 0 else 0
+            cores[k] = tnf.pad(cores[k], (0, 0, pad[0], pad[1], 0, 0))
+            inner[k] = tnf.pad(inner[k], (0, 0, pad[0], pad[1], 0, 0))
+        if value != 0:
+            # constant fill: `value` on every entry outside the embedded original block
+            padded = torchtt._tt_base.TT(cores)
+            return padded + value * (ones(padded.N, dtype=cores[0].dtype, device=cores[0].device) - torchtt._tt_base.TT(inner))
 
     return torchtt._tt_base.TT(cores)
 
